@@ -3,10 +3,26 @@
   Verdicts: ok | MISMATCH ... | PROPFAIL <property> ... | KNOWN <finding> ... | BADLINE | skip
 -/
 import PopsModel.Driver.DateEng
+import PopsModel.Driver.RasterEng
+import PopsModel.Driver.MetricEng
+import PopsModel.Driver.NetEng
+import PopsModel.Driver.KernEng
+import PopsModel.Driver.DetEng
+import PopsModel.Driver.HostEng
+import PopsModel.Driver.StreamEng
+import PopsModel.Driver.ErrEng
 namespace Pops.Driver
 
 structure DState where
   date : DateEng.State := {}
+  raster : RasterEng.State := {}
+  metric : MetricEng.State := {}
+  net : NetEng.State := {}
+  kern : KernEng.State := {}
+  det : DetEng.State := {}
+  host : HostEng.State := {}
+  stream : StreamEng.State := {}
+  err : ErrEng.State := {}
 
 def dateCmds : List String :=
   ["sched", "lookup", "yearly", "eoy", "monthly", "nsteps", "final", "spread", "fromstring",
@@ -21,6 +37,30 @@ def step (st : DState) (line : String) : DState × String :=
     else if cmd.startsWith "date." || dateCmds.contains cmd then
       let (s', out) := DateEng.handle st.date cmd args obs
       ({ st with date := s' }, out)
+    else if cmd.startsWith "raster." then
+      let (s', out) := RasterEng.handle st.raster cmd args obs
+      ({ st with raster := s' }, out)
+    else if cmd.startsWith "metric." then
+      let (s', out) := MetricEng.handle st.metric cmd args obs
+      ({ st with metric := s' }, out)
+    else if cmd.startsWith "net." then
+      let (s', out) := NetEng.handle st.net cmd args obs
+      ({ st with net := s' }, out)
+    else if cmd.startsWith "kern." then
+      let (s', out) := KernEng.handle st.kern cmd args obs
+      ({ st with kern := s' }, out)
+    else if cmd.startsWith "det." then
+      let (s', out) := DetEng.handle st.det cmd args obs
+      ({ st with det := s' }, out)
+    else if cmd.startsWith "hp." then
+      let (s', out) := HostEng.handle st.host cmd args obs
+      ({ st with host := s' }, out)
+    else if cmd.startsWith "rng." then
+      let (s', out) := StreamEng.handle st.stream cmd args obs
+      ({ st with stream := s' }, out)
+    else if cmd.startsWith "err." then
+      let (s', out) := ErrEng.handle st.err cmd args obs
+      ({ st with err := s' }, out)
     else (st, "BADLINE")
 
 partial def loop (h : IO.FS.Stream) (out : IO.FS.Stream) (st : DState) (case_ : String) : IO Unit := do
